@@ -34,6 +34,11 @@ def cases(tier):
         for halo in (0.0, None, 13.0):
             for fp in (True, False):
                 yield {"nx": nx, "ny": ny, "halo": halo, "footprint": fp, "mhi": mhi}
+    # fixed extents divided by every size: cell sizes like 150/7 or 100/3 are not representable, so n*(L/n) != L in floating
+    # point and any coordinate / size arithmetic that relies on it is off by one somewhere in this sweep
+    for nx, ny in itertools.product(range(3, hi + 1), repeat=2):
+        for k, dom in enumerate(((150.0, 75.0), (100.0, 60.0))):
+            yield {"nx": nx, "ny": ny, "halo": (0.0, None, 13.0)[(nx + ny + k) % 3], "footprint": bool((nx + k) % 2), "mhi": 8, "dom": list(dom)}
 
 
 def _lowpass_check(out, full, nlx, nly, tol):
@@ -57,6 +62,9 @@ def case_grid(case):
     nx, ny, halo, fp = case["nx"], case["ny"], case["halo"], case["footprint"]
     dx, dy = 10.0, 15.0
     dom = (nx * dx, ny * dy)
+    if "dom" in case:
+        dom = tuple(case["dom"])
+        dx, dy = dom[0] / nx, dom[1] / ny
     nxe, nye, px, py = sl.padded_size(nx, ny, dom, halo)
     sl.pollute(nxe, nye, dx, dy)
     z, prof = sl.build_profiles("most_aniso", 3)
@@ -95,7 +103,12 @@ def case_grid(case):
                   "msg": "nx=%d ny=%d halo=%r %s, all modes kept (padded %dx%d): the flux at the lowest node differs from %s by %.2e of its maximum - the field is not registered on the grid"
                   % (nx, ny, halo, "footprint" if fp else "dispersion", nxe, nye, "the unit impulse at the tower cell" if fp else "the source itself", ea)})
     ntested = 0
+    q_other = np.full((ny + 2, nx + 2), 0.5)  # same parities as the judged grid, so the same mode counts are accepted
     for nlx, nly in itertools.product(range(2, case["mhi"] + 1, 2), repeat=2):
+        if (nlx + nly) % 8 == 0:
+            # immediately before: the same request (domain, modes, halo, tower) on ANOTHER grid size - whatever the library
+            # might remember about it must not leak into the call that is judged
+            S(q_other, dom, (nlx, nly), halo, mp)
         g, out = S(q, dom, (nlx, nly), halo, mp)
         lab = "nx=%d ny=%d halo=%r modes=(%d,%d) %s (padded %dx%d)" % (nx, ny, halo, nlx, nly, "footprint" if fp else "dispersion", nxe, nye)
         par = "odd" if ((nxe - min(nlx, nxe)) % 2 or (nye - min(nly, nye)) % 2) else "even"
@@ -109,7 +122,7 @@ def case_grid(case):
             v.append({"sub": "shape", "sig": "shape/" + sigp, "msg": "%s: returned shape %s for a %dx%d source" % (lab, shp, ny, nx)})
             continue
         X, Y = np.asarray(g[0]), np.asarray(g[1])
-        Xw, Yw = np.meshgrid(np.arange(nx) * dx, np.arange(ny) * dy)
+        Xw, Yw = np.meshgrid(np.arange(nx) * (dom[0] / nx), np.arange(ny) * (dom[1] / ny))
         if X.shape[-2:] != (ny, nx) or not (np.allclose(X.reshape(-1, ny, nx)[0], Xw, rtol=1e-13, atol=1e-12) and np.allclose(Y.reshape(-1, ny, nx)[0], Yw, rtol=1e-13, atol=1e-12)):
             v.append({"sub": "coords", "sig": "coords/" + sigp, "msg": "%s: returned coordinates are not x=i*dx, y=j*dy" % lab})
         mixed = (nlx > nxe) != (nly > nye)
